@@ -562,20 +562,25 @@ func runC18(c *Check) {
 			if iff == nil || iff.Cond != needRo {
 				continue
 			}
-			for _, r := range Returns(G) {
-				pth, _ := fa.ReachFromEdge(b, 0, func(in ssa.Instruction) bool { return in == ssa.Instruction(r) }, ReachOpts{Barrier: func(in ssa.Instruction) bool { return in == forced.(ssa.Instruction) }})
-				if pth == nil {
-					continue
-				}
-				nskip++
-				c.Gate(fa, r, nthKey("skip", nskip)+":read-only", "the statement is skipped only if the master already is read-only", func(l Lit) bool {
-					return l.Pos && l.T.IsField("IsReadOnly") && l.T.Args[0].Op == "param" && l.T.Args[0].Name == "2"
-				})
-				c.Gate(fa, r, nthKey("skip", nskip)+":super-flag-matches", "… with the super flag already as configured (super-read-only unless keep-super-writable)", func(l Lit) bool {
-					a, bb, op, ok := Cmp(l)
-					return ok && op == "!=" && ((a.IsField("KeepSuperWritableOnCriticalDiskUsage") && bb.IsField("IsSuperReadOnly")) || (bb.IsField("KeepSuperWritableOnCriticalDiskUsage") && a.IsField("IsSuperReadOnly")))
-				})
+			isRet := func(in ssa.Instruction) bool { _, ok := in.(*ssa.Return); return ok }
+			bar := func(in ssa.Instruction) bool { return in == forced.(ssa.Instruction) }
+			if pth, _ := fa.ReachFromEdge(b, 0, isRet, ReachOpts{Barrier: bar}); pth == nil {
+				continue
 			}
+			nskip++
+			// every way from the need-read-only side to the end of the function that bypasses the statement passes both tests
+			// (judged on the paths, not on the return instruction: after an inlining the skip shares the function's last return)
+			roPat := func(l Lit) bool {
+				return l.Pos && l.T.IsField("IsReadOnly") && l.T.Args[0].Op == "param" && l.T.Args[0].Name == "2"
+			}
+			superPat := func(l Lit) bool {
+				a, bb, op, ok := Cmp(l)
+				return ok && op == "!=" && ((a.IsField("KeepSuperWritableOnCriticalDiskUsage") && bb.IsField("IsSuperReadOnly")) || (bb.IsField("KeepSuperWritableOnCriticalDiskUsage") && a.IsField("IsSuperReadOnly")))
+			}
+			pth, _ := fa.ReachFromEdge(b, 0, isRet, ReachOpts{Barrier: bar, Cut: []LitPat{roPat}})
+			c.Req(pth == nil, gn, p.InstrPos(iff), nthKey("skip", nskip)+":read-only", "the statement is skipped only if the master already is read-only", "ungated path: "+fa.PathString(pth))
+			pth, _ = fa.ReachFromEdge(b, 0, isRet, ReachOpts{Barrier: bar, Cut: []LitPat{superPat}})
+			c.Req(pth == nil, gn, p.InstrPos(iff), nthKey("skip", nskip)+":super-flag-matches", "… with the super flag already as configured (super-read-only unless keep-super-writable)", "ungated path: "+fa.PathString(pth))
 		}
 		// the skip-return needs both conjuncts
 		for _, b := range G.Blocks {
